@@ -27,7 +27,7 @@ def main():
     print("#", head[0] if head else p.stdout[-300:], file=sys.stderr)
     known = {f["mechanism"] for f in json.load(open(os.path.join(ROOT, "known_findings.json")))["findings"] if f["property"] == pid and f["status"] == "open"}
     seen = {}
-    for f in glob.glob(os.path.join(ROOT, "evidence", ".work", pid, "*.json")):
+    for f in glob.glob(os.path.join(ROOT, "evidence", ".work", pid, "run-*", "*.json")):
         try:
             d = json.load(open(f))
         except Exception:  # noqa: BLE001
